@@ -34,6 +34,17 @@ fn main() {
         .expect("open replay file")
         .read_to_string(&mut txt)
         .unwrap();
+    if let Some(first) = txt.lines().find(|l| !l.trim().is_empty() && !l.starts_with('#')) {
+        if let Some(what) = first.trim().strip_prefix("exec ") {
+            let m = vharness::mexec::kv(&txt);
+            let out = match what.trim() {
+                "cuckoo" => vharness::mexec::exec_cuckoo(&m),
+                _ => "{\"error\":\"unknown exec\"}".to_string(),
+            };
+            println!("{}", out);
+            return;
+        }
+    }
     let mut lines = txt.lines();
     let name = lines.next().unwrap().trim().to_string();
     let script: Vec<Vec<u8>> = lines.filter(|l| !l.trim().is_empty() && !l.starts_with('#')).map(hex).collect();
